@@ -17,6 +17,7 @@ RULE = (
     "non-trivial = history with >= 1 failing rule and >= 1 other rule."
 )
 RULE += (" " + 'The menu includes multi-condition rules whose later condition fails and a good rule sharing its nested condition text with a failing rule; the stand-alone references are computed with emptied module caches of the library.')
+RULE += " Sub-space K: collections of 1-2 (thorough 3) plain rules, a correlation rule over the first / over all of them and an optional trailing rule, strict and collecting: a correlation rule whose referenced rule failed gets exactly one record and no query, the plain rules' queries and records are unaffected, nothing is raised in collecting mode."
 ASSUMPTIONS = ["per-rule fresh conversion (new backend class instance, new pipeline from the same dict, freshly loaded rule) is the reference",
                "errors are compared by type and message"]
 MENU = ["ok1", "ok2", "ok_lin", "off", "F_pipe", "F_item", "F_ph", "F_type", "F_cond", "F_neg", "ok_cased_sw", "F_cond2", "F_ph2", "ok_opt", "F_load", "F_dup"]
@@ -226,8 +227,119 @@ def judge(res, st, hist, kname, pname, collect):
         add_violation(res, f"probe-after-history-differs:{mech}", case, pexp, obs["probe"])
 
 
+# ---------------------------------------------------------------------------------------------
+# sub-space K: collections that also contain a correlation rule over the first rule (or the first two)
+
+KC = V.K(templates=NOCS, state_expr=True, correlation={"typing": False})
+CMENU = ["ok1", "ok2", "off", "F_pipe", "F_ph", "F_cond", "F_cond2"]
+
+
+def corr_collection(hist, ctype, tail):
+    from sigma.collection import SigmaCollection
+    from sigma.correlations import SigmaCorrelationRule
+
+    rules = []
+    for i, k in enumerate(hist):
+        d = rule_dict(k, i)
+        d["name"] = f"r{i}"
+        from sigma.rule import SigmaRule
+
+        r = SigmaRule.from_dict(d)
+        if k == "off":
+            r.disable_output()
+        rules.append(r)
+    refs = [f"r{i}" for i in range(len(hist))] if ctype == "temporal" else ["r0"]
+    c = {"type": ctype, "rules": refs, "timespan": "5m", "group-by": ["f1"]}
+    if ctype == "event_count":
+        c["condition"] = {"gte": 2}
+    rules.append(SigmaCorrelationRule.from_dict({"title": "corr", "name": "corr", "correlation": c}))
+    if tail:
+        rules.append(load("ok1", 50))
+    return SigmaCollection(rules), rules, refs
+
+
+def judge_corr(res, st, hist, ctype, tail, pname, collect):
+    """a correlation rule is a rule of the collection too: if it cannot be converted (a rule it refers to failed) it gets one record
+    and no query in collecting mode; the plain rules' queries and records are what they are without the correlation rule"""
+    import copy
+
+    from sigma.exceptions import SigmaError
+    from sigma.processing.pipeline import ProcessingPipeline
+
+    case = {"sub": "K", "history": list(hist), "correlation": ctype, "trailing_rule": tail, "pipeline": pname, "collect_errors": collect}
+    res["evaluations"] += 1
+    st.history()
+    st.transition(len(hist) + 1 + tail)
+    cls = V.make_backend_class(KC, fresh=True)
+    mkb = lambda c: cls(ProcessingPipeline.from_dict(copy.deepcopy(PIPE_P if pname == "P" else PIPE_MIN)), collect_errors=c)
+    # reference: every plain rule converted alone by a fresh backend of the same kind
+    alone = []
+    for i, k in enumerate(list(hist) + (["ok1"] if tail else [])):
+        idx = 50 if (tail and i == len(hist)) else i
+        d = rule_dict(k, idx)
+        try:
+            from sigma.rule import SigmaRule
+
+            r = SigmaRule.from_dict(d)
+            alone.append(("ok", mkb(False).convert_rule(r) if k != "off" else []))
+        except (SigmaError, NotImplementedError) as e:
+            alone.append(("err",) + norm_err(type(e).__name__, str(e)))
+    coll, rules, refs = corr_collection(hist, ctype, tail)
+    b = mkb(collect)
+    try:
+        out = ("ok", b.convert(coll))
+    except (SigmaError, NotImplementedError) as e:
+        out = ("err",) + norm_err(type(e).__name__, str(e))
+    except Exception as e:
+        add_violation(res, f"K:non-sigma-exception:{type(e).__name__}", case, "queries or SigmaError", repr(e)[:200])
+        return
+    st.state([hist, ctype, tail, out[0]])
+    res["outcomes"].add(h64([out[0], len(b.errors)]))
+    res["nontrivial"].add(h64(case))
+    ref_failed = [i for i in range(len(refs)) if alone[i][0] == "err"]
+    first_err = next((a for a in alone if a[0] == "err"), None)
+    if not collect:
+        if first_err is not None:
+            # the first failing rule of the collection decides (referenced rules precede the correlation rule)
+            pos_first = next(i for i, a in enumerate(alone) if a[0] == "err")
+            if pos_first < len(hist) and out != first_err:
+                add_violation(res, "K:strict:other-error-than-the-first-failing-rule", case, first_err, out)
+        elif out[0] != "ok":
+            add_violation(res, "K:strict:error-although-every-rule-converts", case, "queries", out)
+        return
+    if out[0] != "ok":
+        add_violation(res, f"K:raised-instead-of-collecting:{out[1]}", case, "queries and records", out)
+        return
+    recs = []
+    for r, e in b.errors:
+        recs.append(next(k for k, x in enumerate(rules) if x is r))
+    corr_pos = len(hist)
+    exp_recs = [i for i, a in enumerate(alone[: len(hist)]) if a[0] == "err"]
+    plain_recs = [i for i in recs if i != corr_pos and i < corr_pos] + [i for i in recs if i > corr_pos]
+    exp_plain = exp_recs + ([corr_pos + 1] if tail and alone[-1][0] == "err" else [])
+    if plain_recs != exp_plain:
+        add_violation(res, "K:records-of-plain-rules-differ", case, exp_plain, recs)
+    ncorr = recs.count(corr_pos)
+    if ref_failed and ncorr != 1:
+        add_violation(res, "K:correlation-over-failed-rule:not-exactly-one-record", case, 1, ncorr)
+    if not ref_failed and ncorr != 0:
+        add_violation(res, "K:correlation-over-converted-rules:record-although-convertible", case, 0, [str(e)[:100] for r, e in b.errors if r is rules[corr_pos]])
+    # queries of the plain rules, in order, are a subsequence of the output (the correlation rule's own queries lie between them)
+    # (rules a correlation rule refers to emit no query of their own unless the correlation rule asks for it)
+    want = [q for i, a in enumerate(alone) if a[0] == "ok" and i >= len(refs) for q in a[1]]
+    have = list(out[1])
+    it = iter(have)
+    if not all(any(q == h for h in it) for q in want):
+        add_violation(res, "K:queries-of-plain-rules-differ", case, want, have)
+    extra = len(have) - len(want)
+    if ref_failed and extra != 0:
+        add_violation(res, "K:correlation-over-failed-rule:emits-a-query", case, want, have)
+    if not ref_failed and extra < 1:
+        add_violation(res, "K:correlation-query-missing", case, "one more query than the plain rules have", have)
+
+
 def plan(tier, seed):
-    return [(k, p, c, first) for k in KS for p in ("none", "P") for c in (False, True) for first in MENU] + [("det", 0, 0, 0)]
+    return [(k, p, c, first) for k in KS for p in ("none", "P") for c in (False, True) for first in MENU] + [("det", 0, 0, 0)] + [("corr", p, c, first) for p in ("none", "P") for c in (False, True) for first in CMENU]
 
 
 def run_shard(shard, tier, seed):
@@ -237,6 +349,12 @@ def run_shard(shard, tier, seed):
     if kname == "det":
         E.determinism_check(lambda h: run_history(h, "Ka", "P", True)["canon"], E.histories(MENU, 2))
         judge(res, st, (), "Ka", "P", True)
+        return res
+    if kname == "corr":
+        for hist in E.histories(CMENU, 2 if tier == "quick" else 3, prefix=(first,)):
+            for ctype in ("event_count", "temporal"):
+                for tail in (0, 1):
+                    judge_corr(res, st, hist, ctype, tail, pname, collect)
         return res
     n = BOUNDS[tier]["n"]
     # every history up to n-1 rules over the full menu; histories of exactly n rules over the core menu (one rule kind per mechanism)
